@@ -409,6 +409,9 @@ def c04(prop, tier, seed, work):
     scs = [
         dict(name="manput", profile="manput", contents=["m1", "m2", "m3", "m4", "x1", "x3", "a1", "mg", "mi"], algs=["sha256", "sha512"], depth=(18, 30), num=(40, 400),
              stores=STORES3, obs=["refs"], mc_contents=["m1", "x4"], mc_depth=(3, 4)),
+        # references that existed and are gone again when the manifest / index that names them is pushed
+        dict(name="manputdel", profile="manputdel", contents=["m1", "m2", "x1"], algs=["sha256"], depth=(16, 26), num=(25, 250),
+             stores=["mem", "dir"], obs=["refs"], nrepos=1),
     ]
     return histories(prop, tier, seed, work, scs, "", "a history is non-trivial if it contains a manifest push; distinct = distinct operation sequences",
                      {"ManPut"})
